@@ -424,9 +424,10 @@ class C18(core.Check):
         "a multiple (0.9 .. 2) of the distance to another vertex, zero or negative; planes through a vertex with axis, "
         "random or vertex-spanned normals of any length, zero normal included; sphere queries closer than 1e-3 relative "
         "to the radius and plane queries with a vertex between TOL/3 and 3 TOL from the plane are skipped; the same queries "
-        "are repeated on the same finder object after two vertices have been moved (history). shape cases: Cylinder, SemiCylinder, Frustum, Elbow, ExtrudedRing (5/8 segments), "
+        "are repeated on the same finder object after two vertices have been moved, after Mesh.backport() and after deleting "
+        "a box and clear()/assemble() (history; results are identified by object identity among the CURRENT mesh.vertices). shape cases: Cylinder, SemiCylinder, Frustum, Elbow, ExtrudedRing (5/8 segments), "
         "RoundSolidShape over OneCoreDisk/QuarterDisk, random axis/radius/length, optionally chained, find_core and "
-        "find_shell on both end faces. reorient cases: box / warped (corner jitter up to 12%) / sheared parallelepiped / "
+        "find_shell on both end faces, repeated on the same finder object after Mesh.backport(). reorient cases: box / warped (corner jitter up to 12%) / sheared parallelepiped / "
         "frustum-like / rotated hexahedra with dyadic coordinates, a viewpoint (40% roughly face-on, 40% anywhere, 20% between two sides), all 48 "
         "initial numberings plus 8 arbitrary scrambles of the eight points (quick tier: all 48 for every fourth block, "
         "13 of them and 4 scrambles for the others); non-convex blocks as malformed stream. history cases: ONE ViewpointReorienter object (observer in the middle, "
@@ -464,7 +465,9 @@ class C18(core.Check):
             for _ in range(10):
                 queries.append(self._query(rng))
             moved = [[rng.randrange(1000), [rng.choice([-1, 1]) * _dy(rng, 0.25, 0.75) for _ in range(3)]] for _ in range(2)]
-            cases.append({"kind": "find", "mesh": spec, "queries": queries, "moved": moved})
+            cases.append(
+                {"kind": "find", "mesh": spec, "queries": queries, "moved": moved, "reassemble": True, "delete": rng.randrange(1000)}
+            )
         types = ["Cylinder", "SemiCylinder", "Frustum", "Elbow", "ExtrudedRing", "OneCoreDisk", "QuarterDisk"]
         for n in range(21 if quick else 280):
             cases.append({"kind": "shape", "round": _round_spec(rng, types[n % len(types)], [0.0, 0.0, 0.0])})
@@ -542,6 +545,8 @@ class C18(core.Check):
         return self._impl_reorient(case)
 
     def _impl_find(self, case: dict) -> Any:
+        import warnings
+
         import numpy as np
 
         import classy_blocks as cb
@@ -555,7 +560,7 @@ class C18(core.Check):
         finder = cb.GeometricFinder(mesh)
         n = len(verts)
         phases = []
-        for phase in range(2):
+        for phase in range(4):
           if phase == 1:
               # history: the same finder object after some vertices have been moved (nothing may be cached)
               if not case.get("moved"):
@@ -563,7 +568,27 @@ class C18(core.Check):
               for k, d in case["moved"]:
                   vertex = mesh.vertices[k % n]
                   vertex.move_to(vertex.position + np.array(d, dtype=float))
-              verts = [np.array(v.position, dtype=float) for v in mesh.vertices]
+          if phase == 2:
+              # ... after the mesh has been re-assembled from the modified vertices (new Vertex objects)
+              if not case.get("reassemble"):
+                  break
+              with warnings.catch_warnings():
+                  warnings.simplefilter("ignore")  # arcs of a round shape whose vertices were moved get re-centred
+                  mesh.backport()
+          if phase == 3:
+              # ... after a block has been deleted and the mesh assembled once more
+              boxes = [e for e in mesh.depot if isinstance(e, cb.Box)]
+              if case.get("delete") is None or len(boxes) < 2:
+                  break
+              mesh.delete(boxes[case["delete"] % len(boxes)])
+              mesh.clear()
+              with warnings.catch_warnings():
+                  warnings.simplefilter("ignore")
+                  mesh.assemble()
+          # always judged against the vertices the mesh has NOW (positions and object identity)
+          verts = [np.array(v.position, dtype=float) for v in mesh.vertices]
+          index = {id(v): i for i, v in enumerate(mesh.vertices)}
+          n = len(verts)
           out = []
           for q in case["queries"]:
               res: Dict[str, Any] = {"type": q["type"]}
@@ -602,7 +627,7 @@ class C18(core.Check):
                       # a span normal can be (nearly) zero: treat tiny normals as boundary
                       res["boundary"] = nn < 1e-6
                   res["boundary"] = res.get("boundary", False) or any(tol / 3 <= d <= tol * 3 for d in dist)
-              res["found"] = sorted(index[id(v)] for v in found)
+              res["found"] = sorted(index.get(id(v), -1) for v in found)  # -1: not a vertex of the mesh
               res["is_set"] = isinstance(found, set)
               out.append(res)
           phases.append({"verts": [v.tolist() for v in verts], "queries": out})
@@ -624,19 +649,31 @@ class C18(core.Check):
         verts = [np.array(v.position, dtype=float) for v in mesh.vertices]
         index = {id(v): i for i, v in enumerate(mesh.vertices)}
         finder = cb.RoundSolidFinder(mesh, shape)
-        res: Dict[str, Any] = {"verts": [v.tolist() for v in verts], "ends": []}
-        for end in (False, True):
-            sketch = shape.sketch_2 if end else shape.sketch_1
-            name = type(sketch).__name__
-            if name == "Annulus":
-                name += str(sketch.n_segments)
-            positions, _ = sketch_points(sketch)
-            entry: Dict[str, Any] = {"sketch": name, "points": [p.tolist() for p in positions]}
-            for part in ("core", "shell"):
-                found = getattr(finder, "find_" + part)(end)
-                entry[part] = sorted(index[id(v)] for v in found)
-            res["ends"].append(entry)
-        return res
+        import warnings
+
+        phases = []
+        for phase in range(2):
+            if phase == 1:
+                # history: the same finder object after the mesh has been re-assembled (new Vertex objects)
+                with warnings.catch_warnings():
+                    warnings.simplefilter("ignore")
+                    mesh.backport()
+                verts = [np.array(v.position, dtype=float) for v in mesh.vertices]
+                index = {id(v): i for i, v in enumerate(mesh.vertices)}
+            res: Dict[str, Any] = {"verts": [v.tolist() for v in verts], "ends": []}
+            for end in (False, True):
+                sketch = shape.sketch_2 if end else shape.sketch_1
+                name = type(sketch).__name__
+                if name == "Annulus":
+                    name += str(sketch.n_segments)
+                positions, _ = sketch_points(sketch)
+                entry: Dict[str, Any] = {"sketch": name, "points": [p.tolist() for p in positions]}
+                for part in ("core", "shell"):
+                    found = getattr(finder, "find_" + part)(end)
+                    entry[part] = sorted(index.get(id(v), -1) for v in found)  # -1: not a vertex of the mesh
+                res["ends"].append(entry)
+            phases.append(res)
+        return {"phases": phases}
 
     def _impl_reorient(self, case: dict) -> Any:
         import numpy as np
@@ -770,10 +807,11 @@ class C18(core.Check):
                     else:
                         reqs.append(f"c18.plane {_pt(q['centre'])} {_pt(q['normal'])} {vs}")
         elif case["kind"] == "shape":
-            vs = _pts(impl["verts"])
-            for e in impl["ends"]:
-                for part in ("core", "shell"):
-                    reqs.append(f"c18.shape {e['sketch']} {part} {_pts(e['points'])} {vs}")
+            for ph in impl["phases"]:
+                vs = _pts(ph["verts"])
+                for e in ph["ends"]:
+                    for part in ("core", "shell"):
+                        reqs.append(f"c18.shape {e['sketch']} {part} {_pts(e['points'])} {vs}")
         elif case["kind"] == "reorient-seq":
             import numpy as np
 
@@ -811,17 +849,19 @@ class C18(core.Check):
                         continue
                     want = "[" + ",".join(map(str, q["found"])) + "]"
                     if model[pos] != want:
-                        when = " (after vertices were moved)" if k else ""
+                        when = ["", " (after vertices were moved)", " (after backport)", " (after delete/clear/assemble)"][k]
                         return f"{q['type']} query{when} {q}: implementation finds {want}, model {model[pos]}"
                     pos += 1
             return None
         if case["kind"] == "shape":
-            for e in impl["ends"]:
-                for part in ("core", "shell"):
-                    want = "[" + ",".join(map(str, e[part])) + "]"
-                    if model[pos] != want:
-                        return f"find_{part} on {e['sketch']}: implementation {want}, model {model[pos]}"
-                    pos += 1
+            for k, ph in enumerate(impl["phases"]):
+                for e in ph["ends"]:
+                    for part in ("core", "shell"):
+                        want = "[" + ",".join(map(str, e[part])) + "]"
+                        if model[pos] != want:
+                            when = " (after backport)" if k else ""
+                            return f"find_{part} on {e['sketch']}{when}: implementation {want}, model {model[pos]}"
+                        pos += 1
             return None
         cls = {"err notconvex": "DegenerateGeometryError", "err degenerate": "DegenerateGeometryError", "err index": "IndexError"}
         if case["kind"] == "reorient-seq":
@@ -898,8 +938,9 @@ class C18(core.Check):
 
     def _oracle_find(self, case: dict, impl: Any) -> List[dict]:
         out: List[dict] = []
+        suffix = ["", ":after-vertices-moved", ":after-reassembly", ":after-reassembly"]
         for k, ph in enumerate(impl["phases"]):
-            out += self._oracle_find_phase(ph, Fraction(impl["tol"]), ":after-vertices-moved" if k else "")
+            out += self._oracle_find_phase(ph, Fraction(impl["tol"]), suffix[k])
         return out
 
     def _oracle_find_phase(self, ph: dict, tol: Fraction, suffix: str) -> List[dict]:
@@ -921,6 +962,17 @@ class C18(core.Check):
                     continue  # no plane given; covered by the correspondence only
                 exp = [i for i, v in enumerate(verts) if _dot(_sub(v, c), n) ** 2 < tol2 * nn]
                 fn = "find_on_plane"
+            if -1 in q["found"]:
+                out.append(
+                    {
+                        "site": f"GeometricFinder.{fn}:not-a-vertex-of-the-mesh{suffix}",
+                        "what": f"{q}: {q['found'].count(-1)} of the returned objects are not among mesh.vertices "
+                        "(vertices of an earlier assembly)",
+                        "observed": q["found"],
+                        "expected": exp,
+                    }
+                )
+                continue
             missed = sorted(set(exp) - set(q["found"]))
             extra = sorted(set(q["found"]) - set(exp))
             if missed:
@@ -932,6 +984,14 @@ class C18(core.Check):
         return out
 
     def _oracle_shape(self, case: dict, impl: Any) -> List[dict]:
+        import numpy as np
+
+        out: List[dict] = []
+        for k, ph in enumerate(impl["phases"]):
+            out += self._oracle_shape_phase(case, ph, ":after-reassembly" if k else "")
+        return out
+
+    def _oracle_shape_phase(self, case: dict, impl: Any, suffix: str) -> List[dict]:
         import numpy as np
 
         out: List[dict] = []
@@ -954,10 +1014,19 @@ class C18(core.Check):
                 core_exp = inner
             e = impl["ends"][end]
             name = "end" if end else "start"
+            if -1 in e["shell"] + e["core"]:
+                out.append(
+                    {
+                        "site": "RoundSolidFinder:not-a-vertex-of-the-mesh" + suffix,
+                        "what": f"{spec['type']} {name} face: the finder returns objects that are not among mesh.vertices "
+                        f"(core {e['core']}, shell {e['shell']})",
+                    }
+                )
+                continue
             if e["shell"] != rim:
                 out.append(
                     {
-                        "site": "RoundSolidFinder.find_shell:not-the-outer-rim",
+                        "site": "RoundSolidFinder.find_shell:not-the-outer-rim" + suffix,
                         "what": f"{spec['type']} {name} face: find_shell returns vertices {e['shell']}, the outer rim is {rim}",
                         "observed": e["shell"],
                         "expected": rim,
@@ -966,7 +1035,7 @@ class C18(core.Check):
             if e["core"] != core_exp:
                 out.append(
                     {
-                        "site": "RoundSolidFinder.find_core:not-the-core",
+                        "site": "RoundSolidFinder.find_core:not-the-core" + suffix,
                         "what": f"{spec['type']} {name} face: find_core returns vertices {e['core']}, the core is {core_exp}",
                         "observed": e["core"],
                         "expected": core_exp,
